@@ -131,6 +131,18 @@ Definition cmd_copy_len_code (c : command) : N :=
   (* as i8 as i32, added to an i32, result as u32 *)
   w32 (cmd_copy_len c + (if d8 <? 128 then d8 else 2^32 - 256 + d8)).
 
+(* ---- metablock.rs RecomputeDistancePrefixes, per command: when the meta-block's distance parameters change
+   (quality 10/11: BrotliBuildMetaBlock tries npostfix/ndirect per block), every command with an explicit
+   distance is re-encoded from the distance code its fields denote under the OLD parameters ---- *)
+Definition recompute_distance_prefix (nd0 np0 nd1 np1 : N) (c : command) : command :=
+  if andb (np0 =? np1) (nd0 =? nd1) then c
+  else if andb (negb (cmd_copy_len c =? 0)) (128 <=? cmd_prefix_ c) then
+    let dc := restore_distance_code (dist_prefix_ c) (dist_extra_ c) nd0 np0 in
+    let pe := prefix_encode_copy_distance dc nd1 np1 in
+    {| insert_len_ := insert_len_ c; copy_len_ := copy_len_ c; dist_extra_ := snd pe;
+       cmd_prefix_ := cmd_prefix_ c; dist_prefix_ := fst pe |}
+  else c.
+
 (* ---- StoreCommandExtra: (nbits, value) handed to BrotliWriteBits ---- *)
 Definition store_command_extra (c : command) : N * N :=
   let copylen_code := cmd_copy_len_code c in
